@@ -136,10 +136,11 @@ def sr (st : St) (fs : List String) (impl : String) : St × String × String :=
         let want := if dur < 0 then 0 else dur
         let obs := if want > room then room else want
         let ms := match parsePushback pbs with | .ms n => n | _ => 0
-        -- property: the delay IS the pushback
+        -- property: the delay IS the pushback (a time.Duration cannot hold more than MaxInt64 ns: saturated there)
+        let wantSpec : Int := if 1000000 * ms > maxInt64 then maxInt64 else 1000000 * ms
+        let obsSpec : Int := if wantSpec > room then room else wantSpec
         let v := match idur with
-          | some x => if obs = room ∧ want > room then "-"            -- clock saturated: not observable
-                      else if x = 1000000 * ms then "ok"
+          | some x => if x = obsSpec then (if wantSpec > room then "-" else "ok")   -- "-": waited to the bubble's horizon
                       else if 1000000 * ms > maxInt64 then s!"VIOL delay {x}ns is not the server pushback {ms}ms [int64 overflow: ms x 10^6 > MaxInt64]"
                       else s!"VIOL delay {x}ns is not the server pushback {ms}ms"
           | none => "ok"
